@@ -204,7 +204,7 @@ func (n *Node) build() {
 		dbft.WithStopTxFlow[H](func() { n.cb(CbRec{K: "StopTxFlow", At: n.Proj(nil)}) }),
 		dbft.WithVerifyBlock[H](func(b dbft.Block[H]) bool {
 			ok := true
-			var rec BlockRec
+			rec := noBlockRec
 			if bb, _ := b.(*Block); bb != nil {
 				rec = bb.Rec
 				for _, t := range bb.Rec.Txs {
@@ -291,7 +291,7 @@ func (n *Node) build() {
 			dbft.WithNewPreCommit[H](func(d []byte) dbft.PreCommit { return &PreCommitBody{D: append([]byte(nil), d...)} }),
 			dbft.WithVerifyPreBlock[H](func(b dbft.PreBlock[H]) bool {
 				ok := true
-				var rec BlockRec
+				rec := noBlockRec
 				if bb, _ := b.(*PreBlock); bb != nil {
 					rec = bb.Rec
 					for _, t := range bb.Rec.Txs {
